@@ -79,3 +79,17 @@ Example C04_keys_definition : forall user realm password,
                                  | VOk _, VPanic | VPanic, _ => VPanic
                                  | VOk _, VUnmodelled | VUnmodelled, _ => VUnmodelled end.
 Proof. intros. unfold lt_key. destruct (av_precis realm), (av_precis password); reflexivity. Qed.
+
+(* ---- the published vectors, through the Gallina decoder with real validation (Rfc/Rfc5769.v): RFC 5769 2.1 validates under
+   the short-term key, the low bit of every byte up to and including the MAC (and of the FINGERPRINT length and value) flipped
+   in turn is rejected, a wrong key is rejected; RFC 5769 2.4 and RFC 8489 B.1 verify under MD5(user:realm:password) *)
+From Rustun Require Import Codec.WireFull Rfc.Rfc5769.
+Example C04_rfc5769_request : decode dec_ok_full (validating stk) sample_request = WOk 108 [0; 1; 2; 3; 4; 5].
+Proof. exact rfc5769_request_validates. Qed.
+Example C04_rfc5769_request_faults :
+  forallb (fun i => negb (is_wok (decode dec_ok_full (validating stk) (flip_at i sample_request)))) (seq 0 100 ++ seq 101 7) = true.
+Proof. exact rfc5769_request_every_byte_protected. Qed.
+Example C04_rfc5769_wrong_key : decode dec_ok_full (validating (flip_last stk)) sample_request = WErr.
+Proof. exact rfc5769_request_wrong_key. Qed.
+Example C04_rfc8489_b1 : decode dec_ok_full (validating ltk) sample_long_term_sha256 = WOk 156 [0; 1; 2; 3].
+Proof. exact rfc8489_b1_validates. Qed.
